@@ -79,7 +79,7 @@ MenuCluster == Installs({"cA", "cB", "cC", "cK"}, B, F, F, B, F) \cup Upgrades({
 MenuRetry == Installs({"cA", "cC"}, B, F, F, F, F) \cup Upgrades({"cA", "cB", "cC", "cK", "cV"}, F, B, {0, 1}, F, F, F)
              \cup Rollbacks({0}, {0}, F, F, F)
 \* fault family (C03): atomic x cleanup x no-hooks
-MenuFault == Installs({"cA", "cH"}, B, B, B, F, F) \cup Upgrades({"cB", "cI", "cC"}, B, B, {0}, B, F, F)
+MenuFault == Installs({"cA", "cH", "cR"}, B, B, B, F, F) \cup Upgrades({"cB", "cI", "cC"}, B, B, {0}, B, F, F)
              \cup Rollbacks({0, 1}, {0}, B, B, F) \cup Uninstalls(F, F, F)
              \cup UpInstalls({"cA", "cH"}, B, F, F, F, F)          \* upgrade --install [--atomic] (command line only)
 \* dry-run family (C06)
@@ -105,7 +105,8 @@ EditsClusterEnum == {[kind |-> "edit", res |-> "r1", field |-> "f1", value |-> "
                      [kind |-> "oobnew", res |-> "r2", field |-> "", value |-> "none"],
                      [kind |-> "oobnew", res |-> "r3", field |-> "", value |-> "none"]}
 \* fault family: every history of up to two operations is a base of the fault sweep
-MenuFaultEnum == Installs({"cA", "cH"}, B, B, F, F, F) \cup Upgrades({"cB", "cI"}, B, B, {0}, F, F, F) \cup Rollbacks({0}, {0}, F, B, F)
+\* (cR -> cI: an upgrade that adds a resource AND has a post-upgrade hook, with no hook object left in its way)
+MenuFaultEnum == Installs({"cA", "cR"}, B, B, F, F, F) \cup Upgrades({"cB", "cI"}, B, B, {0}, F, F, F) \cup Rollbacks({0}, {0}, F, B, F)
                  \cup UpInstalls({"cA"}, B, F, F, F, F) \cup Uninstalls(B, F, F)
 \* ownership family: a hook's name re-used by a template, with a stranger of that name arriving in between
 MenuOwnHookEnum == Installs({"cH"}, F, F, B, F, F) \cup Upgrades({"cU", "cA"}, F, F, {0}, F, B, F)
